@@ -39,8 +39,9 @@ template<class T> struct vector
   void clear() {n_ = 0;}
   iterator begin() {return &b_[0];}
   iterator end() {return &b_[0] + n_;}
-  const_iterator begin() const {return &b_[0];}
-  const_iterator end() const {return &b_[0] + n_;}
+  // the front end drops the const of `const T*` for a template parameter T: cast explicitly
+  const T* begin() const {return const_cast<T*>(&b_[0]);}
+  const T* end() const {return const_cast<T*>(&b_[0]) + n_;}
   void push_back(const T& t)
   {
     __CPROVER_assert(n_ < vstd_cap<T>::value, "model capacity of std::vector suffices");
@@ -56,10 +57,10 @@ template<class T> struct vector
   const T& at(size_type i) const { __CPROVER_assert(i < n_, "std::vector::at throws out_of_range"); return b_[i]; }
   // range insert: the extracted text only ever inserts at end() (edit_script::append, lcs.insert(lcs.end(),..));
   // edit_script::prepend (insert at begin()) is not called on any verified path
-  void insert(iterator pos, const_iterator f, const_iterator l)
+  void insert(T* pos, const T* f, const T* l)
   {
     __CPROVER_assert(pos == &b_[0] + n_, "model: std::vector::insert is only modelled at end()");
-    for (const_iterator i = f; i != l; ++i) push_back(*i);
+    for (const T* i = f; i != l; ++i) push_back(*i);
   }
 };
 }
